@@ -89,8 +89,9 @@ where
             .merge_staged_commit(&self.provider, staged_commit)
             .map_err(|_e| Error::Message("Failed to merge staged commit".to_string()))?;
 
-        // Check if the local member was removed by this commit
-        if mls_group.own_leaf().is_none() {
+        // Check if the local member was removed by this commit. The MLS group's own state says so;
+        // the leaf at the own index does not: a member added by the same commit takes the vacated slot.
+        if !mls_group.is_active() {
             return self.handle_local_member_eviction(&group_id, event);
         }
 
